@@ -60,6 +60,23 @@ theorem inv_step {env : Env} {pf : ParseFloat} {s : WState} (h : Inv env pf s) (
     · next herr => exact hr
     · next t ht => exact .inr ht
 
+/-- once a text has been remembered, `first` has been closed -/
+def Started (s : WState) : Prop := s.lastTable ≠ [] → s.started = true
+
+theorem started_init : Started init := fun h => absurd rfl h
+
+theorem started_step {env : Env} {pf : ParseFloat} {s : WState} (h : Started s) (e : WEv) :
+    Started (step env pf s e) := by
+  have hr : Started (receive s e) := by
+    cases e <;> exact h
+  unfold step
+  simp only
+  split
+  · exact hr
+  · split
+    · exact hr
+    · intro _; rfl
+
 /-- a `svc` event leaves the manual text alone -/
 theorem step_svc_mancfg (env : Env) (pf : ParseFloat) (s : WState) (t : Str) :
     (step env pf s (.svc t)).mancfg = s.mancfg := by
@@ -90,5 +107,19 @@ theorem step_installs {env : Env} {pf : ParseFloat} {s : WState} (hs : Inv env p
       injection h1 with h1
       exact h1.symm
   · rw [hload]
+
+/-- … and fabio is serving afterwards -/
+theorem step_started {env : Env} {pf : ParseFloat} {s : WState} (hs : Started s)
+    {e : WEv} {t : Table} (ht : loadTable env pf (nextText (receive s e)) = .ok t) :
+    (step env pf s e).started = true := by
+  have hr : Started (receive s e) := by
+    cases e <;> exact hs
+  unfold step
+  simp only
+  split
+  · next heq =>
+    have heq : nextText (receive s e) = (receive s e).lastTable := by simpa using heq
+    exact hr (by rw [← heq]; exact nextText_ne_nil _)
+  · rw [ht]
 
 end Fabio.Lemmas.C14Watch
